@@ -37,7 +37,14 @@ def cases(prop, tier, seed):
                 out.append(dict(kind="C20", inner=name, dseed=int(rs.randint(1 << 30)), n=int(rs.randint(6, 11)), nl=int(rs.choice([0, 2, 3])),
                                 mode=("none", "idx", "rows")[t % 3], excl=bool(t % 2), mc=(0.5, 3, 0.3, 100)[t % 4], b=int(rs.randint(1, 4)),
                                 jobs=(1, 2, 3)[t % 3], sseed=int(rs.randint(0, 30)), t=t, cls=name, key=["C20", name, t]))
-    elif prop == "C05":
+    if prop == "C20":
+        # third clause of C20: the single-annotator wrapper chooses samples in the order the wrapped strategy ranks them
+        for name in ("US-least_confident", "US-margin", "US-entropy", "ProbabilisticAL", "QBC-KL", "EpistemicUS", "RandomSampling"):
+            for t in range(6 * reps):
+                out.append(dict(kind="C20rank", inner=name, dseed=int(rs.randint(1 << 30)), n=int(rs.randint(5, 10)), a=int(rs.randint(2, 5)),
+                                mode=t % 3, b=int(rs.randint(1, 5)), sseed=int(rs.randint(0, 30)), t=t, cls="SingleAnnotatorWrapper[" + name + "]",
+                                key=["C20rank", name, t]))
+    if prop == "C05":
         # the multi-annotator strategies (the single-annotator ones are swept by bounded/pool.py)
         for name in ("RandomSampling", "US-margin", "ProbabilisticAL", "IntervalEstimationThreshold"):
             for t in range(10 * reps):
@@ -251,6 +258,48 @@ def run_c20(case, fail):
             pass
 
 
+def run_c20_rank(case, fail):
+    """SingleAnnotatorWrapper: with one annotator per sample the samples of the returned pairs are, in order, the wrapped strategy's own
+    ranking for the same (X, aggregated y, selectable samples, batch size) — twin inner strategy with the same seed"""
+    from skactiveml.pool.multiannotator import SingleAnnotatorWrapper
+    rs = np.random.RandomState(case["dseed"])
+    n, a, name = case["n"], case["a"], case["inner"]
+    z = ZOO[name]
+    X = rs.randn(n, 2).round(2)
+    Y = rs.randint(0, 2, size=(n, a)).astype(float)
+    Y[rs.rand(n, a) < 0.5] = np.nan
+    Y[0, :] = np.nan
+    Y[1, 0], Y[2, 0] = 0.0, 1.0                     # both classes observed
+    agg = lambda yy: np.array([r[~np.isnan(r)][0] if (~np.isnan(r)).any() else np.nan for r in np.asarray(yy, dtype=float)])
+    mode = case["mode"]
+    cand = annot = None
+    if mode == 0:
+        rows = [i for i in range(n) if np.isnan(Y[i]).any()]
+    elif mode == 1:
+        annot = np.sort(rs.choice(a, int(rs.randint(1, a + 1)), replace=False))
+        rows = list(range(n))
+    else:
+        cand = np.sort(rs.choice(n, int(rs.randint(2, n + 1)), replace=False))
+        rows = cand.tolist()
+    b = min(case["b"], len(rows))
+    if b < 1:
+        return
+    kw = lambda: z["kwargs"](NAN, (0, 1), case["sseed"])
+    try:
+        ranking = np.asarray(make_strategy(name, case["sseed"]).query(X, agg(Y), candidates=np.array(rows), batch_size=b, **kw())).ravel().tolist()
+        qs = SingleAnnotatorWrapper(make_strategy(name, case["sseed"]), y_aggregate=agg, random_state=case["sseed"])
+        q = np.asarray(qs.query(X, Y, candidates=cand, annotators=annot, batch_size=b, n_annotators_per_sample=1, **kw()))
+    except Exception as e:
+        return          # raising is judged by C07
+    order = []
+    for s_ in q[:, 0].tolist():
+        if s_ not in order:
+            order.append(int(s_))
+    if order != [int(v) for v in ranking][:len(order)] or len(order) != b:
+        fail("C20.single_annotator_wrapper_ignores_the_ranking", f"samples of the selected pairs in order {order}, the wrapped strategy ranks {ranking} "
+                                                                 f"(mode {mode}, batch {b}, one annotator per sample)")
+
+
 # ---------------------------------------------------------------------------------------------------------- C07
 def run_c07(case, fail):
     from skactiveml.pool.multiannotator import SingleAnnotatorWrapper, IntervalEstimationThreshold
@@ -430,7 +479,7 @@ def run_case(prop, case):
     def fail(what, detail):
         fail._count = getattr(fail, "_count", 0) + 1
         fails.append({"sig": f"{case['cls']}:{what}", "detail": detail, "replay": {"module": "bounded.wrappers", "prop": prop, "case": case}})
-    {"C19": run_c19, "C20": run_c20, "C07": run_c07, "C05": run_c07}[case["kind"]](case, fail)
+    {"C19": run_c19, "C20": run_c20, "C07": run_c07, "C05": run_c07, "C20rank": run_c20_rank}[case["kind"]](case, fail)
     return fails
 
 
